@@ -75,6 +75,7 @@ type streamRun struct {
 	errs                         []error
 	errT                         []uint64
 	stop                         chan struct{}
+	gate                         chan struct{}
 	done                         chan struct{}
 	consumer                     string
 	vtWait                       func()        // inside a virtual-time bubble: blocks until every other goroutine is durably blocked
@@ -99,7 +100,7 @@ func dumpHash(m util.Message) (uint64, string) {
 
 // startStream creates the stream and its consumer. consumer: eager | slow | bursty.
 func startStream(conn *sched.Conn, consumer string, pBefore, pAfter int, shutdownAfter ...int) *streamRun {
-	s := &streamRun{conn: conn, parser: &yieldParser{before: pBefore, after: pAfter}, stop: make(chan struct{}), done: make(chan struct{}), consumer: consumer}
+	s := &streamRun{conn: conn, parser: &yieldParser{before: pBefore, after: pAfter}, stop: make(chan struct{}), done: make(chan struct{}), gate: make(chan struct{}), consumer: consumer}
 	if len(shutdownAfter) > 0 {
 		s.shutdownAfter = shutdownAfter[0]
 	}
@@ -144,6 +145,13 @@ func constructorWedged(c *fw.Ctx, kind string) {
 func (s *streamRun) consume() {
 	defer close(s.done)
 	n := 0
+	if s.consumer == "gated" { // the application takes nothing from Inbound until the gate opens
+		select {
+		case <-s.gate:
+		case <-s.stop:
+			return
+		}
+	}
 	for {
 		select {
 		case msg := <-s.stream.Inbound:
